@@ -454,3 +454,66 @@ def run(ctx):
   r7_no_truthiness_on_ids(ctx)
   r8_op_id_maps(ctx)
   c08.r5_empty_consumers_guard(ctx, 'C01.R9')
+  r10_grouping_table(ctx)
+
+
+def r10_grouping_table(ctx, R='C01.R10'):
+  """Horizontal grouping of consumers: a partition by (previous group, equal
+  parameters, equal transformation at this depth) - adjacency must not matter."""
+  import itertools as _it
+  from sa.consteval import Obj
+  rs = ctx.rule(R, 'consumers with equal parameters and transformation share ONE inserted op, whatever their order', floor=1)
+  f = ctx.repo.func(f'{TIG}._group_consumer_transformations')
+  ctx.instance(R)
+  QT = {m.name: m for m in tables.enum(ctx, 'qtyping:QuantTransformation')}
+  it = tables.interp(ctx)
+  chains = [['ADD_QUANTIZE'], ['ADD_QUANTIZE', 'ADD_DEQUANTIZE'], ['NO_QUANTIZE'], ['ADD_DEQUANTIZE']]
+  choices = [(c, p) for c in chains for p in ('P', 'R')]
+  rs.exhaustive = True
+  rows = 0
+  for n in (1, 2, 3):
+    for combo in _it.product(choices, repeat=n):
+      consumers = [Obj('qtyping:OpToTensorParams', {'subgraph_op_id': 10 + i, 'transformations': [QT[t] for t in ch], 'parameters': None if ch == ['NO_QUANTIZE'] else p})
+                   for i, (ch, p) in enumerate(combo)]
+      param = Obj('qtyping:TensorTransformationParams', {'tensor_name': 't', 'producer': None, 'consumers': consumers})
+      outs = it.outcomes(f, [Obj('x:self', {}), param])
+      rows += 1
+      if len(outs) != 1 or outs[0].kind != 'return':
+        ctx.check(R, False, f.node, f, f'{combo}', f'grouping is not decided / raises: {[o.short() for o in outs]}')
+        continue
+      got = outs[0].value
+      # reference partition
+      want = [[frozenset(range(n))]]
+      depth = 0
+      longest = max(len(c.fields['transformations']) for c in consumers)
+      for d in range(longest):
+        nxt = []
+        for grp in want[d]:
+          buckets = {}
+          for i in sorted(grp):
+            c = consumers[i]
+            if len(c.fields['transformations']) > d:
+              key = (c.fields['transformations'][d].name, c.fields['parameters'])
+              buckets.setdefault(key, set()).add(i)
+          nxt += [frozenset(b) for b in buckets.values()]
+        want.append(nxt)
+      try:
+        got_n = [set(frozenset(g) for g in level) for level in got]
+      except TypeError:
+        got_n = None
+      want_n = [set(level) for level in want]
+      ok = got_n == want_n
+      if not ok and rows_bad(ctx, R) < 3:
+        ctx.check(R, False, f.node, f, f'consumers {[(c, p) for c, p in combo]}',
+                  f'groups {[[sorted(g) for g in lvl] for lvl in got] if got_n is not None else got} but equal (parameters, transformation) consumers must share a group: '
+                  f'{[[sorted(g) for g in lvl] for lvl in want]}; split groups insert the same op twice (duplicate "<name>_quantized" tensors)')
+      elif ok:
+        ctx.check(R, True, f.node, f, 'row', '')
+      else:
+        ctx.rule(R).obligations += 1
+  ctx.extra['grouping_table_rows'] = rows
+  ctx.sample(R, {'rows': rows})
+
+
+def rows_bad(ctx, R):
+  return sum(1 for v in ctx.violations if v.rule == R)
